@@ -654,6 +654,11 @@ def r14_same_winner(c, facts, rule='C08.R14'):
 
 
 def run(c, facts):
+    import c09 as _c09
+    import c10 as _c10
+    R16 = c.rule('C08.R16', 'EVERY-USE-RESOLVED: every identifier use is looked up in the scope stack of its own position and connected to what the lookup returned - no use takes over the binder an earlier use of the same name found (shared with C09.R4); every `use` statement of the program is enumerated (shared with C10.R6)')
+    c.shared(R16, _c09.r4_graph_complete, 'C09.R4', facts)
+    c.shared(R16, _c10.r6_complete, 'C10.R6', facts)
     c.run(r15_imports_declared, facts)
     c.run(r14_same_winner, facts)
     c.run(r13_lexical_eval, facts)
